@@ -345,6 +345,13 @@ def _to_bytes(ip, fv, args, kwargs, pure):
         raise Unsupported("to_bytes signed")
     if order not in ("big", "little"):
         raise Unsupported("byteorder")
+    if isinstance(v, int) and isinstance(length, int):
+        try:
+            return v.to_bytes(length, order)
+        except OverflowError:
+            raise Raise("OverflowError")
+        except ValueError:
+            raise Raise("ValueError")
     vt, lt = I(v), I(length)
     if not pure:
         if ip.ctx.branch(lt < 0, "to_bytes-neglen"):
@@ -362,6 +369,11 @@ def _from_bytes(ip, fv, args, kwargs, pure):
     order = a[1] if len(a) > 1 else kwargs.get("byteorder", "big")
     if kwargs.get("signed"):
         raise Unsupported("from_bytes signed")
+    if isinstance(b, (bytes, list)) and order in ("big", "little"):
+        try:
+            return int.from_bytes(bytes(b), order)
+        except (ValueError, TypeError):
+            raise Raise("ValueError")
     t = Bt(b)
     if order == "little":
         t = sym.brev(t)
@@ -668,3 +680,21 @@ def _extend(ip, fv, args, kwargs, pure):
         raise Unsupported("extend with %r" % (args[0],))
     fv.bound.extend(args[0])
     return None
+
+
+TABLE["binascii.b2a_hex"] = TABLE["binascii.hexlify"]
+TABLE["binascii.a2b_hex"] = TABLE["binascii.unhexlify"]
+
+
+@model("str.zfill")
+def _zfill(ip, fv, args, kwargs, pure):
+    _nargs(args, 1, "zfill")
+    v, w = fv.bound, args[0]
+    if isinstance(v, str) and isinstance(w, int):
+        return v.zfill(w)
+    if isinstance(v, SStr) and z3.is_app(v.t) and v.t.decl().name() == "hexfmt":
+        # ("%0<w0>x" % n).zfill(w) == "%0<max(w0,w)>x" % n   (zfill pads after a leading '-', exactly like the % format)
+        w0, n = v.t.arg(0), v.t.arg(1)
+        wt = I(w)
+        return SStr(sym.HEXFMT(z3.If(wt >= w0, wt, w0), n))
+    raise Unsupported("zfill on %r" % (v,))
